@@ -252,6 +252,14 @@ theorem tilt_representations_equiv_complex (amp : Int → Int → ℂ) (opd0 : I
     exact hget x y
   rw [hf]
 
+/-- non-vacuity of `tilt_representations_equiv_complex`: a tilt of 2.5 rows / 2 columns (`thx = 5/2`, `thy = -2`, unit lengths) split as
+`(2 + 1/2, 2 + 0)` — `hsplit`, both window hypotheses `hin`, `hin'` and the extent hypotheses hold together at the sample (1, 1) -/
+example := tilt_representations_equiv_complex (fun _ _ => 1) (fun x y => ((x + y : ℤ) : ℝ)) (5/2) (-2) 1 1 1 1 1 1 1 2 2 0 0
+  one_ne_zero one_ne_zero one_ne_zero ⟨one_ne_zero, one_ne_zero⟩ 2 2 (1/2) 0
+  (by rw [fieldShift_angular (by simp [RealLike.ofInt])]; simp only [RealLike.ofInt]; refine Prod.ext ?_ ?_ <;> norm_num)
+  (outExtent 8 8 none) (outExtent 8 8 none) 4 4 4 4 (by rw [outExtent_nomask]; decide) (by decide) (by rw [outExtent_nomask]; decide) (by decide)
+  1 1 (by decide) (by decide)
+
 /-- **Several tilt elements.** The same for any list of angular tilt elements (Tilt planes, `Wavefront(tilt=…)`, fit records, in
 any order): the metadata shift is that of the summed angles (`shift_additive`), so the equivalent OPD ramp is the ramp of
 the sums. -/
@@ -476,6 +484,44 @@ theorem fit_tilt_propagates_like_original (amp : Int → Int → ℂ) (mask opd 
     funext x y
     rcases hmask x y with h1 | ⟨_, h0⟩
     · have hu := fit_tilt_total_unchanged (R := ℝ) (by simp [RealLike.ofInt]) s0 s1 dx0 dx1 mask opd t x y
+      simp only [tiltRamp, h1, mul_one] at hu
+      simp only [add_zero]
+      rw [hu]
+    · rw [h0, zero_mul, zero_mul]
+  rw [hf]
+/-- **Segmented planes: each segment's field after `fit_tilt` propagates like that segment of the original plane.** Segment `s` of a
+segmented plane (binary, pairwise disjoint masks; the segment's amplitude vanishes off its own mask): its field with the OPD the segmented
+branch of `fit_tilt` leaves (`fitTiltOpdSeg`, which also zeroes the OPD outside all segments) carrying the segment's own recorded element
+`Tilt(x=t[seg,1], y=t[seg,2])` as metadata, and the same segment with the original OPD and no metadata, give the same complex value at
+every output coordinate both evaluate — for ANY coefficients of every segment. Composition of `fit_tilt_total_unchanged_seg` with
+`tilt_representations_equiv_complex`; summing over segments gives the whole aperture (`segmented_tilt_equiv_complex`). -/
+theorem fit_tilt_seg_propagates_like_original (amp : Int → Int → ℂ) (opd : Int → Int → ℝ)
+    (pre post : List (Int × (Int → Int → ℝ) × (Int → ℝ))) (sg : Int × (Int → Int → ℝ) × (Int → ℝ))
+    (hmask : ∀ x y, (sg.2.1 x y = 1 ∧ ∀ s' ∈ pre ++ post, s'.2.1 x y = 0) ∨ amp x y = 0)
+    (dx0 dx1 du0 du1 wl z : ℝ) (os : Int) (s0 s1 : Int) (hw : wl ≠ 0) (hz : z ≠ 0) (hos : os ≠ 0) (hdu : du0 ≠ 0 ∧ du1 ≠ 0)
+    (fix0 fix1 : Int) (sub0 sub1 : ℝ)
+    (hsplit : ((fix0 : ℝ) + sub0, (fix1 : ℝ) + sub1) =
+      fieldShift [TiltEl.angular (fitSegRecordXY sg.2.2).1 (fitSegRecordXY sg.2.2).2] z wl du0 du1 os true)
+    (oe oe' : Extent) (P0 P1 P0' P1' : Int)
+    (hoe : oe.rmin ≤ oe.rmax ∧ oe.cmin ≤ oe.cmax) (hP : 0 < P0 ∧ 0 < P1)
+    (hoe' : oe'.rmin ≤ oe'.rmax ∧ oe'.cmin ≤ oe'.cmax) (hP' : 0 < P0' ∧ 0 < P1') (r c : Int)
+    (hin : (oe.inb r c && (propExtent P0 P1 fix0 fix1).inb r c) = true)
+    (hin' : (oe'.inb r c && (propExtent P0' P1' 0 0).inb r c) = true) :
+    embO (propagateField ⟨phasorField amp (fitTiltOpdSeg s0 s1 dx0 dx1 (pre ++ sg :: post) opd) wl s0 s1 0 0, fix0, fix1, sub0, sub1⟩
+      (dftAlpha dx0 dx1 du0 du1 wl z os).1 (dftAlpha dx0 dx1 du0 du1 wl z os).2 oe P0 P1) r c =
+    embO (propagateField ⟨phasorField amp opd wl s0 s1 0 0, 0, 0, 0, 0⟩
+      (dftAlpha dx0 dx1 du0 du1 wl z os).1 (dftAlpha dx0 dx1 du0 du1 wl z os).2 oe' P0' P1') r c := by
+  rw [tilt_representations_equiv_complex amp (fitTiltOpdSeg s0 s1 dx0 dx1 (pre ++ sg :: post) opd) (fitSegRecordXY sg.2.2).1
+    (fitSegRecordXY sg.2.2).2 dx0 dx1 du0 du1 wl z os s0 s1 0 0 hw hz hos hdu fix0 fix1 sub0 sub1 hsplit oe oe' P0 P1 P0' P1' hoe hP hoe' hP'
+    r c hin hin']
+  have hf : phasorField (K := ℂ) amp (fun x y => fitTiltOpdSeg s0 s1 dx0 dx1 (pre ++ sg :: post) opd x y +
+        ((fitSegRecordXY sg.2.2).1 * RealLike.ofInt (cc s0 x + 0) * dx0 - (fitSegRecordXY sg.2.2).2 * RealLike.ofInt (cc s1 y + 0) * dx1))
+        wl s0 s1 0 0 = phasorField amp opd wl s0 s1 0 0 := by
+    unfold phasorField
+    congr 2
+    funext x y
+    rcases hmask x y with ⟨h1, hoth⟩ | h0
+    · have hu := fit_tilt_total_unchanged_seg (R := ℝ) (by simp [RealLike.ofInt]) s0 s1 dx0 dx1 pre post sg opd x y h1 hoth
       simp only [tiltRamp, h1, mul_one] at hu
       simp only [add_zero]
       rw [hu]
